@@ -333,6 +333,28 @@ func (e *Env) lvals(x ast.Expr) []LV {
 				es := sortOf(u.Elem())
 				vc.hget(e.heap, elemsArr(es), elemsSort(es))
 				return []LV{{Arr: elemsArr(es), Sort: elemsSort(es), Idx: app("sid", v.T)}}
+			case "forkargs":
+				// forkargs(param): the ghost array recording that argument of every forked thread
+				nm, ok := x.Args[0].(*ast.Ident)
+				if !ok {
+					e.fail(x, "forkargs(paramName)")
+				}
+				root := vc.fn
+				for root != nil && root.Parent() != nil {
+					root = root.Parent()
+				}
+				for _, af := range root.AnonFuncs {
+					if c := vc.lookupContract(funcKey(af)); c != nil && c.Thread {
+						for _, p := range af.Params {
+							if p.Name() == nm.Name {
+								s := sortOf(p.Type())
+								vc.hget(e.heap, forkArgArr(af, p.Name()), arrSort(s))
+								return []LV{{Arr: forkArgArr(af, p.Name()), Sort: arrSort(s)}}
+							}
+						}
+					}
+				}
+				e.fail(x, "forkargs: no thread closure parameter %s", nm.Name)
 			case "tags":
 				sv := e.tr(x.Args[0])
 				vc.hget(e.heap, "Tags", tagsSort)
